@@ -34,7 +34,7 @@ REAL_VS_STUB = {"real": ["sdeint, check_contract, BaseSDESolver.integrate, all s
                          "BrownianInterval (real-bm runs)"],
                 "stub": ["StubBrownian (stub-bm runs)", "RecordingBrownian proxy with crash points",
                          "SDE zoo drift/diffusion with crash points"]}
-PROBES = ("ts_dtype_differs", "chunks_total", "chunks_ge_4", "crash_fired_f", "crash_fired_g", "crash_fired_bm", "crash_not_reached",
+PROBES = ("ts_dtype_differs", "logqp_runs", "logqp_increments_compared", "bm_dtype_differs", "chunks_total", "chunks_ge_4", "crash_fired_f", "crash_fired_g", "crash_fired_bm", "crash_not_reached",
           "extra_state_carried", "negative_control_differs", "negative_control_same", "intermediate_outputs",
           "real_bm", "stub_bm", "f32", "final_step_clipped")
 STATE_MEASURE = "distinct (solver, noise type, steps, cut pattern, crash pattern) tuples"
@@ -69,6 +69,9 @@ def gen_case(seed, tier, idx):
             "bm": "real" if rs.random() < 0.25 else "stub", "bm_seed": rs.randrange(1 << 30),
             "ts_dtype": rs.choice(["same", "same", "same", "float64", "float32"]),
             "adaptive_only": rs.choice([None, None, None, {"dt_min": 0.2}, {"dt_min": 10 * dt, "rtol": 1e-2}]),
+            # a Brownian peer of another dtype is only accepted by the element-wise (diagonal) code paths
+            "logqp": rs.random() < 0.12,
+            "bm_dtype": "same",  # (a Brownian peer of another dtype than the state is not a supported input: most code paths raise)
             "cuts": cuts, "crashes": crashes, "outputs": outputs,
             "cache_size": rs.choice([45, 2, 0]), "fault_rate": bm.gen_fault_rate(st.get("faults")),
             "fault_seed": rs.randrange(1 << 30)}
@@ -86,6 +89,10 @@ def run_case(case, keep_log=False):
     spec = case["sde"]
     solver = case["solver"]
     B, m, d = spec["batch"], spec["m"], spec["d"]
+    logqp = bool(case.get("logqp"))
+    if logqp and spec["noise_type"] == "diagonal":
+        m = d + 1  # the log-ratio channel is appended to the state; diagonal noise needs one Brownian channel per state channel
+    bdt = tdt if case.get("bm_dtype", "same") == "same" else stubs.DT[case["bm_dtype"]]  # dtype of the Brownian peer
     y0 = stubs.make_y0(spec, case["dtype"])
     dt = xf(case["dt"])
     kw = dict(case.get("adaptive_only") or {})
@@ -93,6 +100,8 @@ def run_case(case, keep_log=False):
         kw["options"] = dict(solver["options"])
     probes["f32"] = int(case["dtype"] == "float32")
     probes["ts_dtype_differs"] = int(tts != tdt)
+    probes["logqp_runs"] = int(logqp)
+    probes["bm_dtype_differs"] = int(bdt != tdt)
     fired = {"miss": 0, "drop": 0, "blackout": 0}
     n_steps = 0
     n_attempts = 0
@@ -102,10 +111,10 @@ def run_case(case, keep_log=False):
         # the Brownian peer (shared by the one-shot run and all chunks)
         plan = None
         if case["bm"] == "stub":
-            inner = stubs.make_stub_brownian((B, m), tdt, case["bm_seed"], solver["levy"])
+            inner = stubs.make_stub_brownian((B, m), bdt, case["bm_seed"], solver["levy"])
             probes["stub_bm"] = 1
         else:
-            inner = torchsde.BrownianInterval(t0=t0, t1=T, size=(B, m), dtype=tdt, entropy=case["bm_seed"],
+            inner = torchsde.BrownianInterval(t0=t0, t1=T, size=(B, m), dtype=bdt, entropy=case["bm_seed"],
                                               levy_area_approximation=solver["levy"], cache_size=case["cache_size"])
             plan = seams.FaultPlan()
             seams.install_faulty_cache(inner, plan)
@@ -116,11 +125,18 @@ def run_case(case, keep_log=False):
                               [{"kind": "drop", "at": r.randrange(0, 2000)} for _ in range(k)])
             probes["real_bm"] = 1
 
+        lrs = {}
+
         def call(sde, rec, ts, y, extra_state, tag):
             try:
                 with torch.no_grad():
-                    return torchsde.sdeint(sde, y, ts, bm=rec, method=solver["method"], dt=dt, extra=True,
-                                           extra_solver_state=extra_state, **kw)
+                    out = torchsde.sdeint(sde, y, ts, bm=rec, method=solver["method"], dt=dt, extra=True,
+                                          extra_solver_state=extra_state, logqp=logqp, **kw)
+                    if logqp:
+                        ys_, lr_, ex_ = out
+                        lrs[tag] = (ts, lr_)
+                        return ys_, ex_
+                    return out
             except SimCrash:
                 raise
             except Exception as e:  # noqa
@@ -206,12 +222,34 @@ def run_case(case, keep_log=False):
                 if want is not None and not torch.equal(ys_c[i], want):
                     raise Violation("chunked_output_differs", {"chunk": ci, "t": fx(t), "is_chunk_end": i == len(ts_c) - 1,
                                                                "err": bm.maxabs(ys_c[i] - want)}, ci)
+            if logqp:
+                ts_r, lr_r = lrs["oneshot"]
+                idx_r = {float(t): i for i, t in enumerate(ts_r)}
+                _, lr_c = lrs[f"chunk{ci}"]
+                for i in range(len(ts_c) - 1):
+                    j = idx_r.get(float(ts_c[i]))
+                    if j is None or j + 1 >= len(ts_r) or float(ts_r[j + 1]) != float(ts_c[i + 1]):
+                        continue
+                    probes["logqp_increments_compared"] += 1
+                    a_, b_ = lr_c[i].double(), lr_r[j].double()
+                    tol_ = (1e-4 if (case["dtype"] == "float32" or bdt == torch.float32 or tts == torch.float32) else 1e-9)
+                    # the one-shot increment is a difference of cumulative values: its rounding error scales with
+                    # the cumulative log-ratio up to that time, not with the increment
+                    cum = float(lr_r[:j + 1].double().abs().sum(0).max())
+                    if bm.maxabs(a_ - b_) > tol_ * max(bm.maxabs(b_), cum, 1e-3):
+                        raise Violation("chunked_logqp_differs", {"chunk": ci, "interval": [fx(float(ts_c[i])), fx(float(ts_c[i + 1]))],
+                                                                  "err": bm.maxabs(a_ - b_)}, ci)
             y = ys_c[-1]
             if len(extra_c) > 0:
                 probes["extra_state_carried"] = 1
             extra_state = extra_c
         if not torch.equal(y, ys_ref[-1]):
             raise Violation("final_state_differs", {"err": bm.maxabs(y - ys_ref[-1]), "chunks": len(chunks)}, "final")
+        if logqp:
+            # with logqp the appended log-ratio channel restarts from zero in every call while the carried extra
+            # state keeps its own copy of it: the extra states legitimately differ in that channel. The state
+            # trajectory (bit-exact) and the log-ratio increments (to rounding) were compared above.
+            extra_state = extra_ref = ()
         if len(extra_state) != len(extra_ref):
             raise Violation("extra_state_differs", {"len": [len(extra_state), len(extra_ref)]}, "final")
         for i, (e1, e2) in enumerate(zip(extra_state, extra_ref)):
@@ -264,7 +302,7 @@ def simplify(case):
             x = copy.deepcopy(case)
             x["crashes"][i]["at"] = c["at"] // 2
             yield x
-    for key, val in (("bm", "stub"), ("dtype", "float64"), ("fault_rate", 0.0), ("cache_size", 45), ("ts_dtype", "same")):
+    for key, val in (("bm", "stub"), ("dtype", "float64"), ("fault_rate", 0.0), ("cache_size", 45), ("ts_dtype", "same"), ("logqp", False), ("bm_dtype", "same"), ("adaptive_only", None)):
         if case.get(key) != val:
             c = copy.deepcopy(case)
             c[key] = val
